@@ -469,6 +469,10 @@ func c17Program(src string, unsupported bool, stream string, model *Model, r *Re
 			key = "operand-truncation-vm-panic"
 		case unsupported && !wf:
 			key = "unsupported-node-vm-panic"
+		case stream == "slots-known":
+			// c17slots.go: the program references a variable that a loop variable of the same name and ANOTHER TYPE has
+			// clobbered (known shape vm-loopvar-clobbers-outer): the VM then fails an unchecked type assertion
+			key = "vm-loopvar-clobbers-outer-host-panic"
 		}
 		r.Violate(Violation{Kind: "property", Key: key, Detail: "the VM panicked on compiler output: " + res.Panic, Input: in})
 	case res.Err != "":
@@ -578,7 +582,7 @@ func c17Linit() *Model {
 }
 
 func runC17(cfg Config, r *Result) {
-	r.Rule = "two kinds of cases. (1) symbol-table histories: up to 30 random Push/Pop/Define/Resolve operations over 5 names (Pop also on the global table) run on pkg/bytecode.SymbolTable and on the extracted SymTab model: every returned symbol and the final chain of tables (index, nestedMaxIndex, symbols) must agree, and on the implementation no two live symbols may share (scope,index) and every local index must be < the root's nestedMaxIndex after all pops; non-trivial = at least one Push, two Defines, four operations. (2) programs: generated evy programs (declarations, assignment, arithmetic, strings, arrays, maps, index, slice, if/else-if/else, while, break, for over ranges/arrays/strings/maps, nested; a stream with constructs outside the compiler's subset; large programs beyond every operand width) compiled by the REAL compiler; the emitted bytecode is validated by the extracted wf_check (proved sound: wf_check_sound) and by the extracted linit_check (definite initialisation of local slots: no path reads a local slot before an OpSetLocal wrote it; coq/LocalInit.v) and run on the REAL VM under recover and a time limit; sp after Run must equal LocalCount; non-trivial = the emitted code contains a jump or range instruction; distinct = distinct history / program text"
+	r.Rule = "two kinds of cases. (1) symbol-table histories: up to 30 random Push/Pop/Define/Resolve operations over 5 names (Pop also on the global table) run on pkg/bytecode.SymbolTable and on the extracted SymTab model: every returned symbol and the final chain of tables (index, nestedMaxIndex, symbols) must agree, and on the implementation no two live symbols may share (scope,index) and every local index must be < the root's nestedMaxIndex after all pops; non-trivial = at least one Push, two Defines, four operations. (2) programs: generated evy programs (declarations, assignment, arithmetic, strings, arrays, maps, index, slice, if/else-if/else, while, break, for over ranges/arrays/strings/maps, nested; a stream with constructs outside the compiler's subset; large programs beyond every operand width) compiled by the REAL compiler; the emitted bytecode is validated by the extracted wf_check (proved sound: wf_check_sound) and by the extracted linit_check (definite initialisation of local slots: no path reads a local slot before an OpSetLocal wrote it; coq/LocalInit.v) and run on the REAL VM under recover and a time limit; sp after Run must equal LocalCount; stream slots: programs over nested if / else / else-if / while / for blocks (with and without declarations of their own) whose `:=` variables and loop variables deliberately take the names of visible or dead variables, printed a second time with one name per variable: the real VM must record the same trace of variable values for both (two live variables sharing a slot interfere), the real evaluator too (the renaming is an alpha-renaming); non-trivial = the emitted code contains a jump or range instruction; distinct = distinct history / program text"
 	if cfg.Replay != "" {
 		c17Replay(cfg, r)
 		return
@@ -624,6 +628,8 @@ func runC17(cfg Config, r *Result) {
 		}
 		c17Program(src, true, "unsupported", model, r)
 	}
+	// slot sharing of live variables on compiled programs (c17slots.go)
+	c17Slots(cfg, model, r)
 	// array repetition with huge counts (fixed regression stream; the evaluator guards both cases, see f173496 / 6185acc)
 	for _, rc := range c17RepeatCases {
 		c17RepeatCase(rc.src, rc.key, rc.what, r)
